@@ -1891,3 +1891,245 @@ pub proof fn lemma_free_prefix_mono(vs: Seq<Sym>, f: SymbolicBDD, i: int, j: int
 {
     if i < j { lemma_free_prefix_mono(vs, f, i, j - 1); }
 }
+
+// ================================================================ the printed truth table as a partition (C10)
+// The rows a printer emits are recorded in a ghost output trace (one entry per call of the line formatter); the
+// property is stated over that trace.  A total assignment of the table's COLUMNS induces a variable assignment through
+// the formula's column table (to_free_index, C11).
+
+pub type Cells = Seq<TruthTableEntry>;
+pub type ColAsg = spec_fn(int) -> bool;
+pub type Rows = Seq<(Cells, BDD)>;
+
+pub open spec fn col(p: ParsedFormula, v: Sym) -> int { p.raw2free@[v.id as int]->0 as int }
+
+pub open spec fn of_cols(p: ParsedFormula, ca: ColAsg) -> Asg { |v: Sym| ca(col(p, v)) }
+
+/// the total column assignment ca lies in the partial assignment `cells`
+pub open spec fn covers(cells: Cells, ca: ColAsg) -> bool {
+    forall|j: int| 0 <= j < cells.len() ==> ((#[trigger] cells[j]) is True ==> ca(j)) && (cells[j] is False ==> !ca(j))
+}
+
+pub open spec fn extends(cells: Cells, base: Cells) -> bool {
+    cells.len() == base.len() && forall|j: int| 0 <= j < base.len() && !((#[trigger] base[j]) is Any) ==> cells[j] == base[j]
+}
+
+/// two partial assignments that no total assignment satisfies together
+pub open spec fn clash(x: Cells, y: Cells) -> bool {
+    exists|j: int| 0 <= j < x.len() && j < y.len() && ((#[trigger] x[j] is True && y[j] is False) || (x[j] is False && y[j] is True))
+}
+
+pub open spec fn filter_ok(filter: TruthTableEntry, val: bool) -> bool {
+    filter is Any || (filter is True && val) || (filter is False && !val)
+}
+
+/// no variable the diagram still tests has been given a value in the row
+pub open spec fn fresh(b: BDD, p: ParsedFormula, cells: Cells) -> bool {
+    forall|v: Sym| #[trigger] occurs(b, v) ==> cells[col(p, v)] is Any
+}
+
+/// distinct variables of the diagram have distinct columns
+pub open spec fn cols_inj(b: BDD, p: ParsedFormula) -> bool {
+    forall|v: Sym, w: Sym| #[trigger] occurs(b, v) && #[trigger] occurs(b, w) && col(p, v) == col(p, w) ==> v.id == w.id
+}
+
+pub open spec fn rows_wf(out: Rows, base: Cells, filter: TruthTableEntry) -> bool {
+    forall|i: int| 0 <= i < out.len() ==> extends((#[trigger] out[i]).0, base) && !(out[i].1 is Choice) && filter_ok(filter, out[i].1 is True)
+}
+
+pub open spec fn rows_sound(out: Rows, b: BDD, p: ParsedFormula) -> bool {
+    forall|i: int, ca: ColAsg| 0 <= i < out.len() && #[trigger] covers(out[i].0, ca) ==> eval(b, of_cols(p, ca)) == (out[i].1 is True)
+}
+
+pub open spec fn rows_disjoint(out: Rows) -> bool {
+    forall|i: int, j: int| 0 <= i < j < out.len() ==> clash((#[trigger] out[i]).0, (#[trigger] out[j]).0)
+}
+
+pub open spec fn rows_cover(out: Rows, b: BDD, p: ParsedFormula, base: Cells, filter: TruthTableEntry) -> bool {
+    forall|ca: ColAsg| #[trigger] covers(base, ca) && filter_ok(filter, eval(b, of_cols(p, ca)))
+        ==> exists|i: int| 0 <= i < out.len() && #[trigger] covers(out[i].0, ca)
+}
+
+pub proof fn lemma_occurs_ge(b: BDD, lo: int, v: Sym)
+    requires robdd(b, lo), occurs(b, v)
+    ensures key(v) >= lo
+    decreases b
+{
+    if b is Choice {
+        let t = *b->0; let f = *b->2;
+        if occurs(t, v) { lemma_occurs_ge(t, key(b->1) + 1, v); }
+        if occurs(f, v) { lemma_occurs_ge(f, key(b->1) + 1, v); }
+    }
+}
+
+/// the obligations of the two recursive calls at a test node: the child tests only later variables, whose columns are
+/// still unassigned after the node's own column has been set
+pub proof fn lemma_table_child(b: BDD, p: ParsedFormula, base: Cells, child: BDD, x: TruthTableEntry)
+    requires
+        b is Choice, child == *b->0 || child == *b->2,
+        robdd(b, 0), cols_ok(b, p, base.len() as int), cols_inj(b, p), fresh(b, p, base),
+    ensures
+        robdd(child, 0), cols_ok(child, p, base.len() as int), cols_inj(child, p),
+        fresh(child, p, base.update(col(p, b->1), x)),
+        0 <= col(p, b->1) < base.len(), base[col(p, b->1)] is Any,
+{
+    let s = b->1;
+    assert(occurs(b, s));
+    lemma_weaken(child, key(s) + 1, 0);
+    assert forall|v: Sym| #[trigger] occurs(child, v) implies occurs(b, v) by {}
+    assert forall|v: Sym, w: Sym| #[trigger] occurs(child, v) && #[trigger] occurs(child, w) && col(p, v) == col(p, w) implies v.id == w.id by {
+        assert(occurs(b, v) && occurs(b, w));
+    }
+    assert forall|v: Sym| #[trigger] occurs(child, v) implies 0 <= col(p, v) < base.len() && base.update(col(p, s), x)[col(p, v)] is Any by {
+        assert(occurs(b, v));
+        lemma_occurs_ge(child, key(s) + 1, v);
+    }
+}
+
+/// the rows of the false branch followed by the rows of the true branch are a faithful table of the test node
+pub proof fn lemma_table_choice(o1: Rows, o2: Rows, b: BDD, p: ParsedFormula, base: Cells, filter: TruthTableEntry)
+    requires
+        b is Choice,
+        0 <= col(p, b->1) < base.len(), base[col(p, b->1)] is Any,
+        rows_wf(o1, base.update(col(p, b->1), TruthTableEntry::False), filter),
+        rows_sound(o1, *b->2, p), rows_disjoint(o1),
+        rows_cover(o1, *b->2, p, base.update(col(p, b->1), TruthTableEntry::False), filter),
+        rows_wf(o2, base.update(col(p, b->1), TruthTableEntry::True), filter),
+        rows_sound(o2, *b->0, p), rows_disjoint(o2),
+        rows_cover(o2, *b->0, p, base.update(col(p, b->1), TruthTableEntry::True), filter),
+    ensures
+        rows_wf(o1 + o2, base, filter), rows_sound(o1 + o2, b, p), rows_disjoint(o1 + o2),
+        rows_cover(o1 + o2, b, p, base, filter),
+{
+    let s = b->1; let c = col(p, s); let out = o1 + o2;
+    let bf = base.update(c, TruthTableEntry::False); let bt = base.update(c, TruthTableEntry::True);
+    assert forall|i: int| 0 <= i < out.len() implies extends((#[trigger] out[i]).0, base) && !(out[i].1 is Choice) && filter_ok(filter, out[i].1 is True)
+        && out[i].0[c] == (if i < o1.len() { TruthTableEntry::False } else { TruthTableEntry::True }) by {
+        if i < o1.len() {
+            assert(out[i] == o1[i]);
+            assert(bf[c] == TruthTableEntry::False);
+            assert forall|j: int| 0 <= j < base.len() && !((#[trigger] base[j]) is Any) implies o1[i].0[j] == base[j] by { assert(bf[j] == base[j]); }
+        } else {
+            assert(out[i] == o2[i - o1.len()]);
+            assert(bt[c] == TruthTableEntry::True);
+            assert forall|j: int| 0 <= j < base.len() && !((#[trigger] base[j]) is Any) implies o2[i - o1.len()].0[j] == base[j] by { assert(bt[j] == base[j]); }
+        }
+    }
+    assert forall|i: int, ca: ColAsg| 0 <= i < out.len() && #[trigger] covers(out[i].0, ca) implies eval(b, of_cols(p, ca)) == (out[i].1 is True) by {
+        assert(out[i].0[c] is True || out[i].0[c] is False);
+        assert(of_cols(p, ca)(s) == ca(c));
+        if i < o1.len() { assert(out[i] == o1[i]); assert(!ca(c)); } else { assert(out[i] == o2[i - o1.len()]); assert(ca(c)); }
+    }
+    assert forall|i: int, j: int| 0 <= i < j < out.len() implies clash((#[trigger] out[i]).0, (#[trigger] out[j]).0) by {
+        if j < o1.len() { assert(out[i] == o1[i] && out[j] == o1[j]); }
+        else if i >= o1.len() { assert(out[i] == o2[i - o1.len()] && out[j] == o2[j - o1.len()]); }
+        else {
+            assert(extends(out[i].0, base) && extends(out[j].0, base));
+            assert(out[i].0[c] is False && out[j].0[c] is True);
+        }
+    }
+    assert forall|ca: ColAsg| #[trigger] covers(base, ca) && filter_ok(filter, eval(b, of_cols(p, ca)))
+        implies exists|i: int| 0 <= i < out.len() && #[trigger] covers(out[i].0, ca) by {
+        assert(of_cols(p, ca)(s) == ca(c));
+        if ca(c) {
+            assert(covers(bt, ca)) by { assert forall|j: int| 0 <= j < bt.len() implies ((#[trigger] bt[j]) is True ==> ca(j)) && (bt[j] is False ==> !ca(j)) by { if j != c { assert(bt[j] == base[j]); } } }
+            let i = choose|i: int| 0 <= i < o2.len() && #[trigger] covers(o2[i].0, ca);
+            assert(out[i + o1.len()] == o2[i]);
+        } else {
+            assert(covers(bf, ca)) by { assert forall|j: int| 0 <= j < bf.len() implies ((#[trigger] bf[j]) is True ==> ca(j)) && (bf[j] is False ==> !ca(j)) by { if j != c { assert(bf[j] == base[j]); } } }
+            let i = choose|i: int| 0 <= i < o1.len() && #[trigger] covers(o1[i].0, ca);
+            assert(out[i] == o1[i]);
+        }
+    }
+}
+
+/// a single row for a leaf (or none, when the filter rejects the leaf) is a faithful table of the leaf
+pub proof fn lemma_table_leaf(out: Rows, b: BDD, p: ParsedFormula, base: Cells, filter: TruthTableEntry)
+    requires
+        !(b is Choice),
+        (filter_ok(filter, b is True) && out == seq![(base, b)]) || (!filter_ok(filter, b is True) && out == Seq::<(Cells, BDD)>::empty()),
+    ensures
+        rows_wf(out, base, filter), rows_sound(out, b, p), rows_disjoint(out), rows_cover(out, b, p, base, filter),
+{
+    if filter_ok(filter, b is True) {
+        assert(out[0] == (base, b));
+        assert forall|ca: ColAsg| #[trigger] covers(base, ca) && filter_ok(filter, eval(b, of_cols(p, ca)))
+            implies exists|i: int| 0 <= i < out.len() && #[trigger] covers(out[i].0, ca) by { assert(covers(out[0].0, ca)); }
+    }
+}
+
+/// what main() must establish (A15) follows from the constructor's postcondition: distinct free variables get distinct columns
+pub proof fn lemma_cols_inj(p: ParsedFormula, r: BDD)
+    requires
+        table_ok(p.vars@, p.bdd, p.raw2free@, p.vars@.len() as int),
+        distinct_ids(p.vars@),
+        p.vars@.len() <= usize::MAX,
+        forall|v: Sym| occurs(r, v) ==> free_in(p.bdd, v) && p.vars@.contains(v),
+    ensures cols_inj(r, p)
+{
+    assert forall|v: Sym, w: Sym| #[trigger] occurs(r, v) && #[trigger] occurs(r, w) && col(p, v) == col(p, w) implies v.id == w.id by {
+        let i = choose|i: int| 0 <= i < p.vars@.len() && p.vars@[i] == v;
+        let j = choose|j: int| 0 <= j < p.vars@.len() && p.vars@[j] == w;
+        assert(p.vars@[i].id < p.raw2free@.len() && p.vars@[j].id < p.raw2free@.len());
+        lemma_free_prefix_len(p.vars@, p.bdd, i);
+        lemma_free_prefix_len(p.vars@, p.bdd, j);
+        if i < j {
+            lemma_free_prefix_mono(p.vars@, p.bdd, i + 1, j);
+            assert(free_prefix(p.vars@, p.bdd, i + 1).len() == free_prefix(p.vars@, p.bdd, i).len() + 1);
+            lemma_free_prefix_len(p.vars@, p.bdd, j);
+        } else if j < i {
+            lemma_free_prefix_mono(p.vars@, p.bdd, j + 1, i);
+            assert(free_prefix(p.vars@, p.bdd, j + 1).len() == free_prefix(p.vars@, p.bdd, j).len() + 1);
+            lemma_free_prefix_len(p.vars@, p.bdd, i);
+        }
+    }
+}
+
+/// the diagram behind a borrowed pointer (spelled as a spec function: `**r` in a ghost `let` is rejected as a move out of an Rc)
+pub open spec fn pointee(r: &Rc<BDD>) -> BDD { **r }
+
+// ---- the `-v` listing: one line of names per satisfying row
+pub type Names = Seq<Seq<char>>;
+pub type Lines = Seq<(Cells, Names)>;
+
+pub open spec fn str_views(s: Seq<String>) -> Names { Seq::new(s.len(), |i: int| s[i]@) }
+
+/// the names a row is printed as: a column that is True by its label, a column that is Any by its label followed by `*`, a False column not at all
+pub open spec fn names_of(cells: Cells, labels: Names, k: int) -> Names
+    decreases k
+{
+    if k <= 0 { Seq::empty() } else {
+        let p = names_of(cells, labels, k - 1);
+        if cells[k - 1] is True { p.push(labels[k - 1]) } else if cells[k - 1] is Any { p.push(labels[k - 1] + seq!['*']) } else { p }
+    }
+}
+
+pub open spec fn true_rows(ls: Lines) -> Rows { Seq::new(ls.len(), |i: int| (ls[i].0, BDD::True)) }
+
+pub open spec fn lines_named(ls: Lines, labels: Names) -> bool {
+    forall|i: int| 0 <= i < ls.len() ==> (#[trigger] ls[i]).1 == names_of(ls[i].0, labels, ls[i].0.len() as int)
+}
+
+pub proof fn lemma_true_rows_concat(a: Lines, b: Lines)
+    ensures true_rows(a + b) == true_rows(a) + true_rows(b)
+{
+    assert(true_rows(a + b) =~= true_rows(a) + true_rows(b));
+}
+
+pub open spec fn hi(b: BDD) -> BDD { *b->0 }
+pub open spec fn lo(b: BDD) -> BDD { *b->2 }
+
+/// both recursive calls of a printer at a test node meet the printer's precondition
+pub proof fn lemma_table_children(b: BDD, p: ParsedFormula, base: Cells)
+    requires
+        b is Choice, robdd(b, 0), cols_ok(b, p, base.len() as int), cols_inj(b, p), fresh(b, p, base),
+    ensures
+        robdd(lo(b), 0), cols_ok(lo(b), p, base.len() as int), cols_inj(lo(b), p),
+        fresh(lo(b), p, base.update(col(p, b->1), TruthTableEntry::False)),
+        robdd(hi(b), 0), cols_ok(hi(b), p, base.len() as int), cols_inj(hi(b), p),
+        fresh(hi(b), p, base.update(col(p, b->1), TruthTableEntry::True)),
+        0 <= col(p, b->1) < base.len(), base[col(p, b->1)] is Any,
+{
+    lemma_table_child(b, p, base, lo(b), TruthTableEntry::False);
+    lemma_table_child(b, p, base, hi(b), TruthTableEntry::True);
+}
